@@ -69,7 +69,7 @@ class Matcher:
             if name == '_':
                 return True
             if name in b:
-                return ast.dump(b[name]) == ast.dump(n) if isinstance(b[name], ast.AST) else b[name] == n
+                return ast.unparse(b[name]) == ast.unparse(n) if isinstance(b[name], ast.AST) else b[name] == n
             b[name] = n
             return True
         # numpy alias-insensitive dotted names
